@@ -376,3 +376,29 @@ func (cx *ctx) lens(r *h.Rand, nSmall, nBig int) []int {
 func verifhookWriter(key []byte, dst io.Writer) (*verifhook.StreamWriter, error) {
 	return verifhook.NewStreamWriter(key, dst)
 }
+
+// bigCounterCase: a payload of more than 256 chunks of zeros — the only way to see what the
+// chunk counter does beyond its lowest byte — compared with the Lean reference by hash, plus
+// the tamper oracle on chunks whose indices differ by 256.
+func bigCounterCase(r *h.Rand, chunks int) *h.Case {
+	key := r.Bytes(32)
+	n := chunks*C + 5
+	pt := make([]byte, n)
+	ct := realEncrypt(key, pt)
+	oracle := ""
+	out, err := realDecrypt(key, ct)
+	if err != io.EOF || len(out) != n {
+		oracle = fmt.Sprintf("a %d-chunk payload does not round-trip: %v", chunks, err)
+	}
+	if oracle == "" && chunks > 256 {
+		// swap chunk 0 and chunk 256: must be rejected
+		sw := append([]byte(nil), ct...)
+		copy(sw[0:E], ct[256*E:257*E])
+		copy(sw[256*E:257*E], ct[0:E])
+		if _, err := realDecrypt(key, sw); err == io.EOF {
+			oracle = "a payload with chunks 0 and 256 exchanged was accepted (counter wraps at 256 chunks)"
+		}
+	}
+	return &h.Case{Kind: "big-counter", Line: fmt.Sprintf("sencz %s %d %d", h.Hex(key), C, n), Impl: h.Sum(ct), Oracle: oracle, NonTrivial: true,
+		Note: fmt.Sprintf("%d chunks + 5 bytes of zeros", chunks)}
+}
